@@ -16,7 +16,7 @@
                                             of m, rotated to start (end) at e, joins l
      splice_after(p, n)                     p member of l or free, n member of another list
                                             or free: n and its successors come after p  */
-#include "common.h"
+#include "sc.h"
 #include "dll.h"
 
 #define MAXK 6
